@@ -554,7 +554,7 @@ def check_C04(ctx):
                         {"monitors": ["fed_bad", "diverge_bad"], "classify": classify,
                          "rule": "each handled activity type with 1..3 objects / targets / actors as IRIs or embedded values, owned or not, ordered / unordered collections, absent or present likes / shares, OnFollow in {nothing, accept, reject}, no / wrapped / overriding application callback; every single fault; own_step / eff_step / quiet predicates evaluated on the callback segment of each real trace"},
                         family_filter=lambda f: f.startswith("inbox:"),
-                        run_specs=[("inboxwide", ["-families", "inbox", "-n", "12" if ctx.tier == "quick" else "200", "-faults", "none", "-maxruns", "20000"]), ("std", PUB_STD[ctx.tier])])
+                        run_specs=[("fedfocus", ["-families", "fedfocus", "-n", "10" if ctx.tier == "quick" else "200", "-faults", "none", "-maxruns", "20000"]), ("std", PUB_STD[ctx.tier])])
 
 
 def replay_C04(ctx):
@@ -592,8 +592,9 @@ def check_C17(ctx):
         return base(name, fields, run)
     return pub_property(ctx, "C17", "Properties/C17.v",
                         ["Pub/SideEffect.v inbox_forwarding / my_iris / load_collections / has_forwarding_values / forwarding_recipients, Pub/Monitors.v fwd_step",
-                         "modelled, not verified: the 'if' direction (conditions hold => forwarded) is judged on the real traces and tied by replay; the theorem is the 'only if' direction, once-ness and unchanged payload for every environment"],
-                        {"monitors": ["forward_bad", "sequence_bad", "diverge_bad"], "classify": classify,
+                         "Pub/ForwardSpec.v (must_forward as a function of the world: owned ids, stored values, dereferenceable documents, seen, depth) with C17_iff / C17_search: both directions for every world; judge iff_bad evaluates must_forward on the world each recorded fault-free run started from and compares with what the implementation did",
+                         "modelled, not verified: the harness's in-memory Database / Transport is the world the specification is evaluated on"],
+                        {"monitors": ["forward_bad", "iff_bad", "sequence_bad", "diverge_bad"], "classify": classify,
                          "rule": "activities whose to/cc/audience mix owned collections, foreign collections, owned non-collections and actors; reply chains of depth 0..5 through embedded values and dereferenced IRIs with ownership at a random level; depth limit 1..4; filters all / first / none; each activity delivered 1..3 times to one or two local inboxes against one evolving world; plus every standard inbox scenario with single faults"},
                         family_filter=lambda f: f.startswith(("inbox:", "forward:")),
                         run_specs=[("forward", ["-families", "forward", "-n", "60" if ctx.tier == "quick" else "1500", "-faults", "none", "-maxruns", "40000"]), ("std", PUB_STD[ctx.tier])])
